@@ -17,6 +17,9 @@ LOCD = Dict(STR, REAL)  # a design / user location: axis name (resp. tag) -> coo
 VALS = Dict(LOCD, REAL)  # VariableScalar.values
 
 
+_LOC_CACHE: dict = {}
+
+
 @trusted("fontTools.feaLib.variableScalar.Location", "Location(loc) == tuple(sorted(loc.items())): equal for two dicts iff they are equal as mappings (modelled as the dict in canonical representation)")
 def _location(ex, st, args, kwargs, node):
     import z3
@@ -27,11 +30,16 @@ def _location(ex, st, args, kwargs, node):
     (d,) = args
     d = lift(d, LOCD)
     s = LOCD.sort()
+    if d.get_id() in _LOC_CACHE:  # the same dict term gives the identical canonical term (keys are then equal syntactically)
+        r = _LOC_CACHE[d.get_id()][1]
+        models.dict_wf(st, LOCD, r)
+        return Val(LOCD, r)
     k = fresh(STR, "lk")
     dom = s.dom(d)
     mp = z3.Lambda([k], z3.If(z3.Select(dom, k), z3.Select(s.map(d), k), z3.RealVal(0)))
     ckeys = z3.Function("k10_canon_keys", dom.sort(), z3.SeqSort(z3.StringSort()))
     r = s.mk(dom, mp, ckeys(dom))
+    _LOC_CACHE[d.get_id()] = (d, r)  # (d kept alive so that its id is not reused)
     models.dict_wf(st, LOCD, r)
     return Val(LOCD, r)
 
@@ -475,6 +483,19 @@ contract(
     merge_branches=False,
     ghost_vars={"fs": (INT, "0")},
     ghost={"found = True": ["fs = a"]},
+    portfolio=["cvc5"],  # z3's default configuration times out on the `not-found` steps that cvc5 proves in 0.1 s
+    globals={"LOCATION": LOCATION},
+    # per entry (assertions at the two statements that record a value; proved obligations): the value recorded for the anchor
+    # of that name in this source's layer is the ROUNDED coordinate, under the key Location(get_userspace_location(designspace,
+    # source.location)) - the user-space location of THIS source (get_userspace_location's contract: one coordinate per axis tag)
+    hints={
+        "x_value.add_value(location, otRound(anchor.x))": [
+            "anchor.name == anchorName and x_value.values.d[LOCATION(location)] == k10_round(anchor.x)",
+        ],
+        "y_value.add_value(location, otRound(anchor.y))": [
+            "y_value.values.d[LOCATION(location)] == k10_round(anchor.y) and x_value.values.d[LOCATION(location)] == k10_round(anchor.x)",
+        ],
+    },
     loops={
         "for source in designspace.sources": Loop(index="a", invariants=_anchor_invariants(False)),
         "for anchor in glyph.anchors": Loop(index="b", invariants=_anchor_invariants(True)),
@@ -659,4 +680,23 @@ contract(
     params={},
     bounded_ensures={"no-violation": "result == []"},
     runtime=Runtime(_e2e_gen, lambda case: {"case": case}, call=_e2e_call),
+)
+
+
+# ---- probe: getVariableKerningPairs (NOT registered) ----------------------------------------------------------------------
+from pyvc.api import TupleOf as _TupleOf  # noqa: E402
+
+cls("VKFont", fields={"kerning": Dict(Tuple(STR, STR), REAL)}, notes="source UFO: kerning")
+cls("VKSource", fields={"layerName": Opt(STR), "font": Ref("VKFont"), "location": LOCD})
+cls("VKDoc", fields={"sources": List(Ref("VKSource")), "axes": List(Ref("DSAxis"))}, isa=("DesignSpaceDocument",))
+cls("VKOpts", fields={"quantization": INT})
+contract(
+    "ufo2ft.featureWriters.kernFeatureWriter:KernFeatureWriter.getVariableKerningPairs",
+    name="probe",
+    props=[],
+    params={"designspace": Ref("VKDoc"), "side1Classes": Dict(STR, _TupleOf(STR)), "side2Classes": Dict(STR, _TupleOf(STR)),
+            "glyphSet": Set(STR), "options": Ref("VKOpts")},
+    returns=List(Ref("KPairT")),
+    ensures={"t": "True"},
+    canaries={"e": "len(result) == 0"},
 )
